@@ -187,6 +187,71 @@ theorem search_users_refines (pool : List Bytes) (hp : Pool pool) (s : Store) (h
     rw [hf]
     rfl
 
+
+/-! ## the group and the generic search handlers -/
+
+theorem findMembers_none (f : Bytes) (gs : List Entry)
+    (h : ∀ g ∈ gs, ∀ m ∈ getAttributeValues g memberAttr, matchFilter f (memberEq ++ m) = false) :
+    findMembers f gs = [] := by
+  unfold findMembers
+  suffices H : ∀ k, (gs.zipIdx k).flatMap (fun (x : Entry × Nat) =>
+      ((getAttributeValues x.1 memberAttr).filter fun m => matchFilter f (memberEq ++ m)).map fun _ => x.2) = [] from H 0
+  intro k
+  induction gs generalizing k with
+  | nil => rfl
+  | cons g gs ih =>
+    simp only [List.zipIdx_cons, List.flatMap_cons]
+    have hg : (getAttributeValues g memberAttr).filter (fun m => matchFilter f (memberEq ++ m)) = [] :=
+      List.filter_eq_nil_iff.mpr (fun m hm => by simp [h g (by simp) m hm])
+    rw [hg, ih (fun g' hg' => h g' (by simp [hg'])) (k + 1)]
+    rfl
+
+/-- no member value of any group mentions the DN (as the text "member=<value>") -/
+def NoMemberHit (d : Bytes) (gs : List Entry) : Prop :=
+  ∀ g ∈ gs, ∀ m ∈ getAttributeValues g memberAttr, matchFilter (paren d) (memberEq ++ m) = false
+
+theorem lookup_eq (pool : List Bytes) (hp : Pool pool) (d : Bytes) (hd : d ∈ pool) (es : List Entry)
+    (hes : ∀ e ∈ es, e.dn ∈ pool) (hn : (es.map (·.dn)).Nodup) :
+    (findIdx (paren d) es).filterMap (es[·]?) = es.filter (fun e => e.dn == d) := by
+  cases h : hasDN es d with
+  | true =>
+    obtain ⟨l, x, r, e, hx, hl, hr⟩ := hasDN_split h hn
+    subst e
+    rw [find_present pool hp d hd l r x hes hx hl hr]
+    have h1 : l.filter (fun e => e.dn == d) = [] := List.filter_eq_nil_iff.mpr (fun e he => by simp [hl e he])
+    have h2 : r.filter (fun e => e.dn == d) = [] := List.filter_eq_nil_iff.mpr (fun e he => by simp [hr e he])
+    simp [List.filter_append, h1, h2, hx]
+  | false =>
+    rw [find_absent pool hp d hd es hes h]
+    unfold hasDN at h
+    rw [List.any_eq_false] at h
+    have : es.filter (fun e => e.dn == d) = [] := List.filter_eq_nil_iff.mpr (fun e he => h e he)
+    rw [this]; rfl
+
+/-- a search the mux hands to the group handler, with the filter "(dn)" of a DN no member value mentions -/
+theorem search_groups_refines (pool : List Bytes) (hp : Pool pool) (s : Store) (hg : Good pool s) (d : Bytes) (hd : d ∈ pool)
+    (base : Bytes) (hroute : routeSearch s base = .groups) (hm : NoMemberHit d s.groups) :
+    search s base (paren d) = specLookup s.groups d := by
+  unfold search specLookup
+  rw [hroute]
+  simp only
+  rw [findMembers_none (paren d) s.groups hm]
+  have hf : (findIdx (paren d) s.groups).filter (fun i => !([] : List Nat).contains i) = findIdx (paren d) s.groups :=
+    List.filter_eq_self.mpr (fun i _ => by simp)
+  simp only [List.nil_append, hf]
+  rw [lookup_eq pool hp d hd s.groups hg.gdn hg.gnodup]
+
+/-- a search below the user base handed to the generic handler looks the base DN itself up, among users and groups -/
+theorem search_generic_refines (pool : List Bytes) (hp : Pool pool) (s : Store) (hg : Good pool s) (d : Bytes) (hd : d ∈ pool)
+    (filter : Bytes) (hroute : routeSearch s d = .generic) (hsub : containsBytes d s.userDN = true) :
+    search s d filter =
+      (let es := s.users.filter (fun e => e.dn == d) ++ s.groups.filter (fun e => e.dn == d)
+       if es.isEmpty then (ResultNoSuchObject, []) else (ResultSuccess, es)) := by
+  unfold search
+  rw [hroute]
+  simp only [hsub, if_true]
+  rw [lookup_eq pool hp d hd s.users hg.udn hg.unodup, lookup_eq pool hp d hd s.groups hg.gdn hg.gnodup]
+
 /-! ## the invariant is kept -/
 
 theorem specAdd_good (pool : List Bytes) (s : Store) (hg : Good pool s) (d : Bytes) (hd : d ∈ pool)
